@@ -4,7 +4,12 @@
 package mod_trust_clientip
 
 import (
+	"github.com/baidu/go-lib/web-monitor/web_monitor"
+)
+
+import (
 	"github.com/bfenetworks/bfe/bfe_basic"
+	"github.com/bfenetworks/bfe/bfe_module"
 	"github.com/bfenetworks/bfe/bfe_util/ipdict"
 )
 
@@ -21,3 +26,22 @@ func VerifAccept(conf TrustIPConf, session *bfe_basic.Session) error {
 	m.acceptHandler(session)
 	return nil
 }
+
+// VerifC29Module is a module instance started by the real Init (conf file + data file under confRoot).
+type VerifC29Module struct{ m *ModuleTrustClientIP }
+
+// VerifC29Init starts the module the way bfe does: Init reads <confRoot>/mod_trust_clientip/mod_trust_clientip.conf,
+// loads the data file it names and registers the accept and reload handlers.
+func VerifC29Init(confRoot string) (*VerifC29Module, error) {
+	m := NewModuleTrustClientIP()
+	if err := m.Init(bfe_module.NewBfeCallbacks(), web_monitor.NewWebHandlers(), confRoot); err != nil {
+		return nil, err
+	}
+	return &VerifC29Module{m}, nil
+}
+
+// Reload is what the registered reload web handler runs (loadConfData with an empty query: default path).
+func (v *VerifC29Module) Reload() error { return v.m.loadConfData(nil) }
+
+// Accept runs the accept handler on session.
+func (v *VerifC29Module) Accept(session *bfe_basic.Session) { v.m.acceptHandler(session) }
